@@ -342,6 +342,7 @@ DI_DEFAULTS = [
     ("DIStringType.encoding-number", '!DIStringType(name: "s", size: 32, encoding: 129)', ["encoding: 129"]),
     ("DICompileUnit.language-number", 'distinct !DICompileUnit(language: 200, file: !90)', ["language: 200"]),
     ("DISubroutineType.cc-number", '!DISubroutineType(cc: 200, types: !93)', ["cc: 200"]),
+    ("DICompositeType.runtimeLang-number", '!DICompositeType(tag: DW_TAG_structure_type, name: "s", runtimeLang: 200)', ["runtimeLang: 200"]),
     ("DIMacro.type-number", '!DIMacro(type: 200, line: 1, name: "N", value: "1")', ["type: 200"]),
     # zero VALUES of fields that take a reference or an integer: an explicit 0 is a different node than an absent field
     ("DISubrange.lowerBound-zero", '!DISubrange(count: 3, lowerBound: 0)', ["count: 3, lowerBound: 0"]),
